@@ -9,4 +9,13 @@ PROPS = {
             "uint64/uint arithmetic modelled as Z modulo 2^64 (64-bit platform)",
         ],
     },
+    "C11": {
+        "level": "proof",
+        "gen": [],
+        "assumptions": [
+            "Go map semantics for MapSet (the model uses the canonical set operations directly); slices.Sort+Compact in NewSortedSliceSet modelled by its contract (sorted, duplicate-free, same members)",
+            "slices.BinarySearch / Insert / Delete modelled from their go1.24.2 sources (loop with fuel; positional insert/delete)",
+            "element type int (cmp.Ordered total order; floats with NaN are outside the property)",
+        ],
+    },
 }
